@@ -190,9 +190,10 @@ let rec show_prov = function
   | PComp d -> Printf.sprintf "c%d" (int_of_n d)
   | POpaque -> "o" | PDef -> "d"
 let show_parg ((nm, so), p) = Printf.sprintf "%s~%s~%s" (text nm) (show_sort so) (show_prov p)
+(* '&' separates arguments: names may contain '+' (build metadata) *)
 let show_winst = function
-  | WInst (c, args) -> Printf.sprintf "N[%s|%s]" (show_prov c) (String.concat "+" (List.map show_parg args))
-  | WBag ex -> Printf.sprintf "B[%s]" (String.concat "+" (List.map show_parg ex))
+  | WInst (c, args) -> Printf.sprintf "N[%s|%s]" (show_prov c) (String.concat "&" (List.map show_parg args))
+  | WBag ex -> Printf.sprintf "B[%s]" (String.concat "&" (List.map show_parg ex))
 let show_wiring (w : wiring) =
   Printf.sprintf "insts=%s#exports=%s#comps=%s#names=%s"
     (String.concat ";" (List.map show_winst w.w_insts))
